@@ -170,6 +170,12 @@ def snapshot(env):
     return copy.deepcopy(env, memo)
 
 
+def pickle_snapshot(env):
+    """The env after a pickle round trip (what a pool worker receives): numpy views come back as independent arrays, functions by reference."""
+    import pickle
+    return pickle.loads(pickle.dumps(env))
+
+
 def canonical_obs(cfg: EnvCfg, gi: int, R: frozenset):
     """Observation of a FRESH env that reached (gi, R) by resetting gi times and revealing in ascending order."""
     env, script = cfg.make()
@@ -185,8 +191,10 @@ def canonical_obs(cfg: EnvCfg, gi: int, R: frozenset):
 
 
 def explore_env(st: Stats, cfg: EnvCfg, mode: str = "reference", max_depth: int | None = None, with_reset: bool = True,
-                state_cap_factor: int = 12) -> None:
-    """BFS to closure (or max_depth) over step / unstep / reset on the real env."""
+                state_cap_factor: int = 12, snap: str = "deepcopy") -> None:
+    """BFS to closure (or max_depth) over step / unstep / reset on the real env. snap="pickle": every state is carried over by a pickle
+    round trip instead of a deep copy, i.e. every operation runs on an environment that has just been through pickle (as in a pool worker)."""
+    take = snapshot if snap == "deepcopy" else pickle_snapshot
     try:
         env0, script = cfg.make()
     except Exception as e:  # noqa: BLE001
@@ -223,7 +231,7 @@ def explore_env(st: Stats, cfg: EnvCfg, mode: str = "reference", max_depth: int 
         except Exception as e:  # noqa: BLE001
             msg = f"observing the environment raised {type(e).__name__}: {e}"
         if msg:
-            st.violation(f"[env {cfg.tag} n={cfg.n} {cfg.comp} {cfg.gap_name} budget={cfg.budget}] after {hist[-6:]}: {msg}", **cfg.doc(hist, mode=mode))
+            st.violation(f"[env {cfg.tag} n={cfg.n} {cfg.comp} {cfg.gap_name} budget={cfg.budget}] after {hist[-6:]}: {msg}", **cfg.doc(hist, mode=mode, snap=snap))
             return False
         return True
 
@@ -237,7 +245,7 @@ def explore_env(st: Stats, cfg: EnvCfg, mode: str = "reference", max_depth: int 
             if with_reset:
                 ops.append(("reset",))
             for op in ops:
-                e2 = snapshot(env)
+                e2 = take(env)
                 h2 = hist + [op]
                 try:
                     if op[0] == "reset":
@@ -248,7 +256,7 @@ def explore_env(st: Stats, cfg: EnvCfg, mode: str = "reference", max_depth: int 
                         ms = (gi, R | {op[1]} if op[0] == "step" else R - {op[1]})
                 except Exception as e:  # noqa: BLE001
                     st.violation(f"[env {cfg.tag} n={cfg.n} {cfg.comp} {cfg.gap_name}] {op} raised {type(e).__name__}: {e} after {hist[-6:]}",
-                                 **cfg.doc(h2, mode=mode))
+                                 **cfg.doc(h2, mode=mode, snap=snap))
                     if st.nviol >= 3:
                         return
                     continue
@@ -287,6 +295,9 @@ def replay_env(doc: dict) -> tuple[bool, str]:
         gi, R = (script.calls - 1) % ng, frozenset()
         ret = op = None
         for op in hist:
+            if doc.get("snap") == "pickle":
+                env = pickle_snapshot(env)
+                script = env.generator
             if op[0] == "reset":
                 ret = env.reset()
                 gi, R = (script.calls - 1) % ng, frozenset()
